@@ -82,7 +82,8 @@ class NeverInit(edzed.SBlock):
 
 class GenT(edzed.FSM):
     STATES = ['a', 'b']
-    EVENTS = [('go', None, 'b'), ('back', 'b', 'a'), ('tmo', 'b', 'a'), ('bad', None, 'a')]
+    EVENTS = [('go', None, 'b'), ('back', 'b', 'a'), ('tmo', 'b', 'a'), ('bad', None, 'a'),
+              ('poke', None, 'a')]
     TIMERS = {'b': (3, 'tmo')}
 
     def enter_b(self):
@@ -94,10 +95,24 @@ class GenT(edzed.FSM):
     def cond_tmo(self):
         return not self.sdata.get('hold')
 
+    def cond_poke(self):
+        # a rejected event that nevertheless alters the internal state (in place)
+        self.sdata['poked'] = not self.sdata.get('poked', False)
+        return False
+
     def enter_a(self):
         ELOG.append(('enter_a', self.name))
         if edzed.fsm_event_data.get().get('boom'):
             raise RuntimeError("enter_a failed")
+
+
+class SnapshotDict(dict):
+    """
+    Storage that keeps a copy of what was written, like the recommended shelve (which pickles
+    the value): later in-place changes of the written object do not reach the storage.
+    """
+    def __setitem__(self, key, value):
+        super().__setitem__(key, copy.deepcopy(value))
 
 
 BLOCKS = ['Input', 'Counter', 'GenT', 'Timer', 'InputExp', 'TimeDate', 'TimeSpan']
@@ -124,7 +139,7 @@ def alphabet(kind):
         return [('inc', None), ('put', 12), ('dec', None), ('put', 13), ('nosuch', None)]
     if kind == 'GenT':
         return [('go', None), ('go', 6), ('back', None), ('tick',), ('to_expiry',), ('bad', 'boom'),
-                ('go', 'hold'), ('nosuch', None)]
+                ('go', 'hold'), ('nosuch', None), ('poke', None)]
     if kind == 'Timer':
         return [('start', None), ('start', 6), ('stop', None), ('tick',), ('to_expiry',)]
     if kind == 'TimeDate':
@@ -208,7 +223,7 @@ def first_run(cfg):
     kind, sync, exp = cfg['kind'], cfg['sync'], cfg['exp']
     al = alphabet(kind)
     snaps, viol = [], []
-    storage = {"<Counter 'gone'>": 5, 'edzed-foo': 'keep', 'other-key': 1}
+    storage = SnapshotDict({"<Counter 'gone'>": 5, 'edzed-foo': 'keep', 'other-key': 1})
     del ELOG[:]
     with Sim(base_unix_us=BASE_US, cron=True) as sim:
         loop = sim.loop
